@@ -1,6 +1,6 @@
 #!/usr/bin/env python3
 """Writes seeded/INDEX.md from the meta.json files (catch record of the independent seeded changes)."""
-import json, os, glob
+import json, os, glob, re
 rows = []
 for d in sorted(glob.glob("/verif/seeded/*/")):
     mp = os.path.join(d, "meta.json")
@@ -19,7 +19,7 @@ for name, m in rows:
     notes = m.get("notes", "")
     if "MISSED" in notes:
         status = "**missed** — rule added"
-    elif "only" in notes and "reported" in notes:
+    elif re.search(r"only C\d\d\.\w+ reported", notes):
         status = "caught under another property only — rule shared"
     elif notes.startswith("The rules as they stood reported the change only because"):
         status = "reported for the wrong reason — rule reworked"
